@@ -165,7 +165,9 @@ NUM_CONTEXTS = {"plain": "%s", "string": "string(%s)", "neg": "-%s", "times10": 
                 "round": "round(-%s)", "substring": "substring('abcdef', 2, %s)", "concat": "concat('v', %s, 'w')", "sum": "%s + %s",
                 "div": "1 div %s", "pred": "//item[%s]", "strlen": "string-length(string(%s * 10))", "bool": "boolean(%s)"}
 NUM_PATTERNS = ["#", "0.00", "#,##0.###", "0" * 40, "#.#" + "#" * 60, "000,000.0", "#%", "#‰"]
-NUM_FORMATS = ["1", "01", "a", "A", "i", "I", "001", "1.1", "(1)", "-1-"]
+NUM_FORMATS = ["1", "01", "a", "A", "i", "I", "001", "1.1", "(1)", "-1-",
+               # punctuation only / empty / blank / very long / non-ASCII numbering tokens / unusual alphanumeric tokens
+               ".", "-", "", "..", ". ", "0" * 300 + "1", "\u0661", "\u03b1", "\u3042", "\u0430", "zz", "1a1a"]
 FINITE_BIG = ["1e89", "1e90", "1e100", "2p63m1", "2p63", "2p64", "1e19", "1e21", "1e22", "1e308", "max", "2p53p1"]
 LONG = 65536
 LONG_KINDS_XML = ["elementName", "attributeName", "piTarget", "prefix", "attributeValue", "nsUri", "entityName", "comment"]
